@@ -117,7 +117,8 @@ def compare_value_counts(got, want, r, sig):
     mg, mw = mapping(got), mapping(want)
     ensure(set(mg) == set(mw), f"value_counts values differ: dask {sorted(map(str, mg))} pandas {sorted(map(str, mw))}", "value-mismatch", **sig)
     for k in mw:
-        ok = np.isclose(float(mg[k]), float(mw[k]), rtol=1e-9, atol=1e-12)
+        # (normalize=True over zero rows is 0/0 = NaN in pandas as well: NaN agrees with NaN)
+        ok = np.isclose(float(mg[k]), float(mw[k]), rtol=1e-9, atol=1e-12, equal_nan=True)
         ensure(ok, f"value_counts[{k!r}] = {mg[k]!r}, pandas {mw[k]!r}", "value-mismatch", **sig)
     if kw.get("sort") is True:
         v = np.asarray(got.values, dtype=float)
